@@ -96,7 +96,10 @@ def armSell (t : Tracker) (tx : Tx) (pre : Status) (sh px comm rate : Rat) (crat
     let newShares := pre.shares - sh
     let newAll := pre.all - sh
     match perShareAcb pre with
-    | none => .ok { post := { shares := newShares, all := newAll, acb := pre.acb } }
+    | none =>
+      -- registered seller: no cost base, no gain or loss; a declared superficial loss is an error
+      if spec.isSome then .error (.err .sflNoLoss)
+      else .ok { post := { shares := newShares, all := newAll, acb := pre.acb } }
     | some aps =>
       let payout := px * sh * rate - comm * commRate rate crate
       let gain0 := payout - aps * sh
